@@ -128,11 +128,11 @@ func solveAll(results []*FuncResult, workDir string, quickSec, fullSec int, all 
 		go func() {
 			defer wg.Done()
 			for j := range ch {
-				q := j.r.query(j.o, true)
 				h := sha256.Sum256([]byte(j.o.Name))
 				file := filepath.Join(workDir, fmt.Sprintf("%x.smt2", h[:8]))
-				os.WriteFile(file, []byte(q), 0o644)
 				j.o.File = file
+				q := j.r.query(j.o, true)
+				os.WriteFile(file, []byte(q), 0o644)
 				best, _ := discharge(file, quickSec, fullSec, all)
 				j.o.Result = best.result
 				j.o.Backend = best.solver
